@@ -43,8 +43,10 @@ NilOrEmpty == [ty |-> "nilorempty"]                    \* a non-empty list templ
 (* ------------------------------- namespace state ----------------------------------- *)
 Special == {"if", "do", "let*", "fn*", "quote", "recur", "var", "def", "throw", "try", "loop*"}
 CoreVars == {"map", "first", "inc"}
-NsStates == [shadow : BOOLEAN, alias : BOOLEAN, refer : BOOLEAN]
-Plain == [shadow |-> FALSE, alias |-> FALSE, refer |-> FALSE]
+\* rename: LIB's ofn is referred into CUR under the name rfn ((refer 'LIB :rename '{ofn rfn})): the symbol rfn then
+\* denotes the Var LIB/ofn -- the Var's own name, not the name it was written with
+NsStates == [shadow : BOOLEAN, alias : BOOLEAN, refer : BOOLEAN, rename : BOOLEAN]
+Plain == [shadow |-> FALSE, alias |-> FALSE, refer |-> FALSE, rename |-> FALSE]
 Interns(ns) == {"lv", "lfn"} \cup (IF ns.shadow THEN {"first"} ELSE {})
 ReferredFrom(ns, n) == IF n \in CoreVars THEN "CORE" ELSE IF ns.refer /\ n = "ov" THEN "LIB" ELSE ""
 
@@ -53,6 +55,7 @@ Resolve(s, ns) ==          \* s = [q, n]
   ELSE IF s.q # "" THEN (IF ns.alias /\ s.q = "o" THEN [q |-> "LIB", n |-> s.n] ELSE s)
   ELSE IF s.n \in Interns(ns) THEN [q |-> "CUR", n |-> s.n]
   ELSE IF ReferredFrom(ns, s.n) # "" THEN [q |-> ReferredFrom(ns, s.n), n |-> s.n]
+  ELSE IF ns.rename /\ s.n = "rfn" THEN [q |-> "LIB", n |-> "ofn"]
   ELSE [q |-> "CUR", n |-> s.n]
 (* does the resolved symbol name an existing Var (for the hygiene evaluation)? *)
 DenotesVar(s, ns) == LET r == Resolve(s, ns) IN
@@ -200,13 +203,13 @@ QData(t, ns, names, base) ==
                          [] t.c = "map" -> FromPairs(ys, <<>>, <<>>)
 
 (* ------------------------------- the enumerated templates -------------------------- *)
-SymLeaves == {TSym("", "map"), TSym("", "first"), TSym("", "if"), TSym("", "let*"), TSym("", "recur"),
+SymLeaves == {TSym("", "rfn"), TSym("", "map"), TSym("", "first"), TSym("", "if"), TSym("", "let*"), TSym("", "recur"),
               TSym("", "lv"), TSym("", "lfn"), TSym("", "ov"), TSym("", "nope"),
               TSym("o", "ov"), TSym("o", "nope"), TSym("LIB", "ov"), TSym("un.known", "z"), TSym("CORE", "map")}
 Leaves == SymLeaves \cup {TGs("x"), TGs("y"), TK(K("c")), TK(I(7)), TK(Nil)}
           \cup {TUnq(e) : e \in {"eint", "esym", "evar", "enil", "evec", "emap"}}
 Splices == {TSpl(e) : e \in {"evec", "elist", "enil", "eemp", "eqlst", "eset", "emap"}}
-L2 == {TSym("", "map"), TSym("", "if"), TSym("", "lv"), TSym("o", "ov"), TSym("", "nope"), TGs("x"), TGs("y"),
+L2 == {TSym("", "rfn"), TSym("", "map"), TSym("", "if"), TSym("", "lv"), TSym("o", "ov"), TSym("", "nope"), TGs("x"), TGs("y"),
        TK(K("c")), TUnq("eint"), TUnq("esym"), TSpl("evec"), TSpl("enil"), TSpl("eqlst")}
 L3 == {TGs("x"), TSym("", "first"), TSpl("elist"), TUnq("evar")}
 SeqKinds == {"list", "vec", "set"}
@@ -259,8 +262,9 @@ WellFormed(t, ns) ==
                           i # j => /\ t.xs[2 * i - 1] # t.xs[2 * j - 1]
                                    /\ Denote(t.xs[2 * i - 1], ns, FirstOcc(t), 0) # Denote(t.xs[2 * j - 1], ns, FirstOcc(t), 0)
 
-Sensitive(t) == \E s \in SymsOf(t) : s.n \in {"first", "ov"} \/ s.q = "o"
-StatesFor(t) == IF Sensitive(t) THEN NsStates ELSE {Plain}
+Sensitive(t) == \E s \in SymsOf(t) : s.n \in {"first", "ov", "rfn"} \/ s.q = "o"
+Renamed(t) == \E s \in SymsOf(t) : s.q = "" /\ s.n = "rfn"
+StatesFor(t) == IF Renamed(t) THEN NsStates ELSE IF Sensitive(t) THEN {n \in NsStates : ~n.rename} ELSE {Plain}
 
 (* ------------------------------- the machine --------------------------------------- *)
 (* one state per (namespace state, template); the second step exists only to spread the work over the workers *)
